@@ -398,7 +398,7 @@ func (t *Value) Collect() {
 		if t.min > newTime || t.n == 0 {
 			t.min = newTime
 		}
-		if t.max < newTime {
+		if t.max < newTime || t.n == 0 {
 			t.max = newTime
 		}
 
